@@ -1,6 +1,7 @@
 import PharmpyModel.Core.Sexp
 import PharmpyModel.C20.Spec
 import PharmpyModel.C20.Cov
+import PharmpyModel.C20.Results
 open Pharmpy Pharmpy.C20 Pharmpy.C20.Spec
 
 def bad : Sexp := .list [.atom "err", .atom "bad-op"]
@@ -106,6 +107,21 @@ def ratPairs? (s : Sexp) : Option (List (Rat × Rat)) :=
     | .list [a, b] => do pure ((← rat? a), (← rat? b))
     | _ => none))
 
+def sRow (r : Row) : Sexp := .list (r.map (fun p => .list [sStr p.1, sOpt p.2]))
+
+def fixMap? (s : Sexp) : Option FixMap :=
+  s.asList?.bind (·.mapM (fun p => match p with
+    | .list [.atom l, b] => b.asBool?.map (fun b => (l.toList, b))
+    | _ => none))
+
+def sRun (r : RunResult) : Sexp :=
+  .list [sRow r.estimates,
+    (match r.sdcorr with | some x => sRow x | none => .atom "none"),
+    (match r.se with
+      | .noSE => .atom "noSE"
+      | .aborted => .atom "aborted"
+      | .ok a b => .list [.atom "ok", sRow a, sRow b])]
+
 def handle (req : Sexp) : Sexp :=
   match req with
   | .list [.atom "file", k, nt, nl, .list ls] =>
@@ -141,6 +157,18 @@ def handle (req : Sexp) : Sexp :=
   | .list [.atom "subobj", .atom t] => sStr (subOBJ t.toList)
   | .list [.atom "rename", .atom t] => sStr (renameTheta t.toList)
   | .list [.atom "split", .atom t] => sStrs (splitWs t.toList)
+  | .list [.atom "run", .list ls, mf] =>
+    match ls.mapM str?, fixMap? mf with
+    | some ls, some mf =>
+      match parseFile .ext false false ls with
+      | .error e => sErr e
+      | .ok ts => match ts.getLast? with
+        | none => sErr .illegalFile
+        | some t => if t.raw.mixed then .list [.atom "mixed"] else
+          match parseRun t.raw mf with
+          | .ok r => sRun r
+          | .error e => sErr e
+    | _, _ => bad
   | .list [.atom "cov2corr", rows, table] =>
     match ratRows? rows, ratPairs? table with
     | some rows, some table => .list ((cov2corr (ratOps table) rows).map (fun r => .list (r.map sRat)))
